@@ -75,9 +75,112 @@ func conditionArms(fi *core.FuncInfo) (map[string]*ast.CaseClause, *ast.SwitchSt
 // c08origin: which role a numeric variable of an ordering arm plays, from the
 // argument of the cast call that defines it: the looked-up value, the
 // condition value, or element 0 / 1 of the condition's list.
-func c08origins(info *types.Info, fn *ast.FuncDecl, cc *ast.CaseClause) (roles map[types.Object]string, casts map[types.Object]*ast.CallExpr) {
+// castHelper describes a repository helper that casts some of its parameters:
+// result i is the float of parameter ParamOf[i]; Flag is the index of its
+// Boolean success result (-1: none); Sound says that every return with a true
+// flag comes after all casts were checked.
+type castHelper struct {
+	ParamOf map[int]int
+	Flag    int
+	Sound   bool
+}
+
+func c08castHelper(p *core.Prog, fn *types.Func) *castHelper {
+	fi := p.Info(fn)
+	if fi == nil || fi.Decl.Body == nil {
+		return nil
+	}
+	info := fi.Pkg.TypesInfo
+	sig := fn.Type().(*types.Signature)
+	params := map[types.Object]int{}
+	for i := 0; i < sig.Params().Len(); i++ {
+		params[sig.Params().At(i)] = i
+	}
+	h := &castHelper{ParamOf: map[int]int{}, Flag: -1, Sound: true}
+	for i := 0; i < sig.Results().Len(); i++ {
+		if b, ok := sig.Results().At(i).Type().Underlying().(*types.Basic); ok && b.Kind() == types.Bool {
+			h.Flag = i
+		}
+	}
+	// local float <- param through ToFloat64E
+	from := map[types.Object]int{}
+	ast.Inspect(fi.Decl.Body, func(n ast.Node) bool {
+		as, ok := n.(*ast.AssignStmt)
+		if !ok || len(as.Rhs) != 1 {
+			return true
+		}
+		c, ok := ast.Unparen(as.Rhs[0]).(*ast.CallExpr)
+		if !ok || len(c.Args) != 1 {
+			return true
+		}
+		if f := core.CalleeFunc(info, c); f == nil || f.Name() != "ToFloat64E" {
+			return true
+		}
+		if o := defOrUse(info, c.Args[0]); o != nil {
+			if pi, ok := params[o]; ok {
+				if l := defOrUse(info, as.Lhs[0]); l != nil {
+					from[l] = pi
+				}
+			}
+		}
+		return true
+	})
+	if len(from) == 0 {
+		return nil
+	}
+	fl := &core.Flow{Prog: p, Info: info, Body: fi.Decl.Body}
+	fl.Events = func(n ast.Node, st *core.State) ([]string, bool) {
+		as, ok := n.(*ast.AssignStmt)
+		if !ok || len(as.Rhs) != 1 || len(as.Lhs) != 2 {
+			return nil, false
+		}
+		if c, ok := ast.Unparen(as.Rhs[0]).(*ast.CallExpr); ok {
+			if f := core.CalleeFunc(info, c); f != nil && f.Name() == "ToFloat64E" {
+				if o := defOrUse(info, as.Lhs[0]); o != nil {
+					return []string{"num:" + o.Name()}, true
+				}
+			}
+		}
+		return nil, false
+	}
+	fl.Run()
+	fl.Walk(func(n ast.Node, st *core.State, b *cfg.Block) {
+		r, ok := n.(*ast.ReturnStmt)
+		if !ok || len(r.Results) != sig.Results().Len() {
+			if ok && len(r.Results) == 0 {
+				h.Sound = false // naked return: not followed
+			}
+			return
+		}
+		flagTrue := h.Flag < 0
+		if h.Flag >= 0 {
+			if tv, ok := info.Types[r.Results[h.Flag]]; ok && tv.Value != nil && tv.Value.Kind() == constant.Bool {
+				flagTrue = constant.BoolVal(tv.Value)
+			} else {
+				h.Sound = false
+			}
+		}
+		for i, e := range r.Results {
+			if o := defOrUse(info, e); o != nil {
+				if pi, ok := from[o]; ok {
+					h.ParamOf[i] = pi
+					if flagTrue && !st.Held["num:"+o.Name()] {
+						h.Sound = false
+					}
+				}
+			}
+		}
+	})
+	if len(h.ParamOf) == 0 {
+		return nil
+	}
+	return h
+}
+
+func c08origins(p *core.Prog, info *types.Info, fn *ast.FuncDecl, cc *ast.CaseClause) (roles map[types.Object]string, casts map[types.Object]*ast.CallExpr, flags map[types.Object]map[types.Object]bool, unsound []string) {
 	roles = map[types.Object]string{}
 	casts = map[types.Object]*ast.CallExpr{}
+	flags = map[types.Object]map[types.Object]bool{}
 	// classify the function-level variables: value (from a path lookup) and condition value
 	base := map[types.Object]string{}
 	lists := map[types.Object]bool{}
@@ -98,6 +201,49 @@ func c08origins(info *types.Info, fn *ast.FuncDecl, cc *ast.CaseClause) (roles m
 			lhs := defOrUse(info, as.Lhs[0])
 			if lhs == nil {
 				return true
+			}
+			// a repository helper that casts its arguments
+			if p != nil && len(as.Lhs) >= 2 && fnObj.Name() != "ToFloat64E" && fnObj.Name() != "ToSliceE" {
+				if h := c08castHelper(p, fnObj); h != nil {
+					if !h.Sound {
+						unsound = append(unsound, fnObj.Name())
+					}
+					var flagObj types.Object
+					if h.Flag >= 0 && h.Flag < len(as.Lhs) {
+						flagObj = defOrUse(info, as.Lhs[h.Flag])
+					}
+					for ri, pi := range h.ParamOf {
+						if ri >= len(as.Lhs) || pi >= len(c.Args) {
+							continue
+						}
+						l := defOrUse(info, as.Lhs[ri])
+						if l == nil {
+							continue
+						}
+						casts[l] = c
+						if flagObj != nil {
+							if flags[flagObj] == nil {
+								flags[flagObj] = map[types.Object]bool{}
+							}
+							flags[flagObj][l] = true
+						}
+						switch a := ast.Unparen(c.Args[pi]).(type) {
+						case *ast.Ident:
+							if r := base[info.Uses[a]]; r != "" {
+								roles[l] = r
+							}
+						case *ast.IndexExpr:
+							if o := defOrUse(info, a.X); o != nil && lists[o] {
+								if tv, ok := info.Types[a.Index]; ok && tv.Value != nil {
+									if i, ok := constant.Int64Val(tv.Value); ok && i <= 1 {
+										roles[l] = []string{"a", "b"}[i]
+									}
+								}
+							}
+						}
+					}
+					return true
+				}
 			}
 			switch fnObj.Name() {
 			case "TravelerPathLookup":
@@ -144,7 +290,14 @@ func c08origins(info *types.Info, fn *ast.FuncDecl, cc *ast.CaseClause) (roles m
 func c08ordering(p *core.Prog, res *core.Result, fi *core.FuncInfo, name string, cc *ast.CaseClause, prefix string) {
 	info := fi.Pkg.TypesInfo
 	doc := c08documented[name]
-	roles, casts := c08origins(info, fi.Decl, cc)
+	roles, casts, flags, unsoundHelpers := c08origins(p, info, fi.Decl, cc)
+	// operands produced by a cast helper are valid where its success flag is known true
+	flagOf := map[types.Object]types.Object{}
+	for fl, vars := range flags {
+		for v := range vars {
+			flagOf[v] = fl
+		}
+	}
 	// B2: every numeric operand of the returned comparison comes from a checked ToFloat64E
 	fl := &core.Flow{Prog: p, Info: info, Body: &ast.BlockStmt{List: cc.Body}}
 	fl.Events = func(n ast.Node, st *core.State) ([]string, bool) {
@@ -190,6 +343,9 @@ func c08ordering(p *core.Prog, res *core.Result, fi *core.FuncInfo, name string,
 			if b, ok := o.Type().Underlying().(*types.Basic); !ok || b.Info()&types.IsNumeric == 0 {
 				return true
 			}
+			if fo := flagOf[o]; fo != nil && conjunctFlag(info, e, fo) {
+				return true // compared only under the helper's success flag
+			}
 			if !st.Held["num:"+id.Name] {
 				problems = append(problems, fmt.Sprintf("operand %s of the comparison at %s is not the result of a cast.ToFloat64E call whose error was tested on this path", id.Name, p.Pos(r.Pos())))
 			}
@@ -214,6 +370,9 @@ func c08ordering(p *core.Prog, res *core.Result, fi *core.FuncInfo, name string,
 			problems = append(problems, fmt.Sprintf("the arm returns the constant true at %s", p.Pos(ret.Pos())))
 		}
 	})
+	for _, h := range unsoundHelpers {
+		problems = append(problems, fmt.Sprintf("the cast helper %s can report success although one of its casts failed", h))
+	}
 	if cmp == nil {
 		res.Unres("B3", keyB3, p.Pos(cc.Pos()), "no returned comparison found in this arm")
 		return
@@ -228,6 +387,9 @@ func c08ordering(p *core.Prog, res *core.Result, fi *core.FuncInfo, name string,
 		if id, ok := ast.Unparen(e).(*ast.Ident); ok {
 			if r, ok := roles[info.Uses[id]]; ok {
 				return r
+			}
+			if _, isFlag := flags[info.Uses[id]]; isFlag {
+				return "#true" // the predicate is read under "all operands are numbers"
 			}
 		}
 		return ""
@@ -700,4 +862,17 @@ func c08selftest(st *core.Prog, res *core.Result) {
 			res.OKTrivial("SELF", "selftest|c08."+name, "-", "rules give "+string(got)+" as expected")
 		}
 	}
+}
+
+
+// conjunctFlag: flag is a top-level conjunct of e (e = flag && …).
+func conjunctFlag(info *types.Info, e ast.Expr, flag types.Object) bool {
+	e = ast.Unparen(e)
+	if id, ok := e.(*ast.Ident); ok {
+		return info.Uses[id] == flag
+	}
+	if b, ok := e.(*ast.BinaryExpr); ok && b.Op == token.LAND {
+		return conjunctFlag(info, b.X, flag) || conjunctFlag(info, b.Y, flag)
+	}
+	return false
 }
